@@ -964,6 +964,11 @@ def solve(rep, ex: Explorer):
                         cont = p.outcome[0] == "loopback" or (p.outcome[0] == "return" and decided(p, ("isnone", "maxsol")) is False)
                         rep.check(len(apps) == 1 and cont, "REV.entry", site, "front member recorded", "every optimum the optimiser reports is recorded once; the search goes on unless the requested number is reached",
                                   extracted=f"{len(apps)} recorded, outcome {p.outcome[0]}", required="1 recorded, continue (or stop at max_solutions)", function=site)
+                        marks = [e.data.get("oid_mark") for e, Q2 in evs if e.kind == "while.enter" and not Q2 and e.data.get("oid_mark") is not None]
+                        if apps and marks:
+                            fresh = apps[0].value.oid > marks[-1]
+                            rep.check(fresh, "REV.entry", site, "front member is an object of its own", "each recorded optimum is a mapping created for it (one object updated and recorded again and again shows the last optimum in every place)",
+                                      extracted="created in this iteration" if fresh else "an object that exists across iterations is recorded", required="a new mapping per optimum", function=site)
                         if p.outcome[0] == "return":
                             vw = view(p.state, p.outcome[1])
                             rep.check(isinstance(vw, tuple) and vw[0] == "list" and any(sg[0] == "one" for sg in vw[1]) and any(sg[0] == "sym" for sg in vw[1]), "REV.entry", site, "front returned",
